@@ -4,5 +4,7 @@ CONSTANTS
   Keys = {k1}
   MaxOps = 3
   KeygenOrder <- OrderAsCoded
+  PinIsCounter = TRUE
+  WithCallback = FALSE
 INVARIANT NeverBothOutcomes
 CHECK_DEADLOCK FALSE
